@@ -94,6 +94,8 @@ func main() {
 		hlib.ReadReplayCase(f.Replay, &c)
 		emit(replayCase(w, &c, rep))
 	} else {
+		// decorrelate the streams of consecutive seeds (hlib.NewRng(s+1) is NewRng(s) advanced once)
+		rng = hlib.NewRng(mix(f.Seed))
 		id := 0
 		for _, c := range corpus() {
 			c.ID = id
@@ -101,8 +103,24 @@ func main() {
 			emit(replayCase(w, c, rep))
 		}
 		nseq := f.N
+		nconc, nlimit, nevict := f.N/6, f.N/8, 3
+		if f.Tier == "thorough" {
+			nevict = 12
+		}
 		for i := 0; i < nseq; i++ {
 			emit(genSeqCase(rng.Fork(), w, id, rep))
+			id++
+		}
+		for i := 0; i < nlimit; i++ {
+			emit(genLimitCase(rng.Fork(), w, id, rep))
+			id++
+		}
+		for i := 0; i < nconc; i++ {
+			emit(genConcCase(rng.Fork(), w, id, rep))
+			id++
+		}
+		for i := 0; i < nevict; i++ {
+			emit(genEvictCase(rng.Fork(), w, id, rep))
 			id++
 		}
 	}
@@ -115,9 +133,25 @@ func main() {
 
 func replayCase(w *world, c *Case, rep *hlib.Report) *Case {
 	switch c.Kind {
+	case "conc":
+		for i := range c.Ops {
+			c.Ops[i].Verdicts, c.Ops[i].Snap = nil, nil
+		}
+		return runConc(w, c, rep)
+	case "evict":
+		return runEvict(nil, w, c, rep)
 	default:
 		return replaySeq(w, c, rep)
 	}
+}
+
+func mix(x uint64) uint64 {
+	x ^= x >> 33
+	x *= 0xff51afd7ed558ccd
+	x ^= x >> 33
+	x *= 0xc4ceb9fe1a85ec53
+	x ^= x >> 33
+	return x + 0x9e3779b97f4a7c15
 }
 
 // headBefore returns the head block index in force before op (ops are scanned in order).
@@ -142,4 +176,3 @@ func (c *Case) summary() any {
 	return c
 }
 
-func corpus() []*Case { return nil }
